@@ -14,6 +14,7 @@ conditions).  Rules compare those terms with the terms the specification prescri
 same term (helper extracted or inlined, if/else vs ?:, early return vs else, temporaries, renamed locals) are
 indistinguishable here by construction.
 """
+import os
 from . import astq
 from .facts import walk
 
@@ -1122,7 +1123,11 @@ class Explorer:
         are atoms named after themselves). params: {name: term}; heap: {(base, field): term}. -> [Outcome]"""
         outcomes = []
         work = [[]]
+        import time as _time
+        t_end = _time.time() + float(os.environ.get("VERIF_SYMX_BUDGET", "120"))
         while work:
+            if _time.time() > t_end:
+                raise Unsupported("time budget exceeded while enumerating the paths of %s" % func.name)
             dec = work.pop()
             run = Run(self, dec)
             fr = Frame(func, 0, this)
